@@ -6,7 +6,7 @@ from harness.core import hx, unhx
 LEAN_MODULES = ['CpProps.C15', 'CpProps.C15Partial']
 RULE = ('generated client hellos (any version, ordered lists of known/unknown/GREASE cipher suites with and without the '
         'SCSV markers, extension sets of parsed, unparsed, GREASE and unknown types, supported-groups and point-format '
-        'lists with GREASE and unknown values, with or without those extensions) are composed; JA3 is computed by the '
+        'lists with GREASE and unknown values, with or without those extensions, also repeated and in first/last position) are composed; JA3 is computed by the '
         'library on the object and on its parse image, by the Lean model, by the Lean spec from the bytes, and by an '
         'independent Python reading of the published definition from the bytes. Non-trivial: at least one extension '
         'or more than one cipher suite; distinct: composed bytes.')
@@ -150,6 +150,22 @@ def near_grease(rng, hello):
             [TlsInvalidTypeTwoByte(grp), TlsNamedCurve.X25519, TlsInvalidTypeTwoByte(0x11ec if 0x11ec not in known_grp else 0xfe32)]))
 
 
+def repeated_ec_extensions(rng, hello):
+    """supported-groups / point-format extensions occurring more than once and in unusual positions (first, last,
+    separated by other extensions): the published definition reads the last one of each type (as the Lean spec and
+    `ja3_reference` do), every occurrence shows in the extension-type section"""
+    from cryptoparser.tls import extension as ex
+    from cryptodatahub.tls.algorithm import TlsNamedCurve, TlsECPointFormat
+    curves = list(TlsNamedCurve)
+    for _ in range(rng.randrange(1, 4)):
+        if rng.random() < 0.6:
+            new = ex.TlsExtensionEllipticCurves([rng.choice(curves) for _ in range(rng.randrange(1, 5))])
+        else:
+            new = ex.TlsExtensionECPointFormats([rng.choice(list(TlsECPointFormat)) for _ in range(rng.randrange(1, 3))])
+        pos = rng.choice([0, len(hello.extensions), rng.randrange(len(hello.extensions) + 1)])
+        hello.extensions.insert(pos, new)
+
+
 def run(run, driver_ok=True, deep=False):
     tier = 'thorough' if deep else run.tier
     n = 400 if tier == 'quick' else 20000
@@ -159,6 +175,9 @@ def run(run, driver_ok=True, deep=False):
             h = gen_tls.client_hello(run.rng, modelled_only=(i % 4 != 0))
             if i % 5 == 0:
                 near_grease(run.rng, h)
+            if i % 6 == 1:
+                repeated_ec_extensions(run.rng, h)
+                run.count('repeated_ec_extensions', 'hellos')
             data = bytes(h.compose())
         except Exception as exc:  # pylint: disable=broad-except
             run.count('generator_errors', type(exc).__name__)
